@@ -492,11 +492,96 @@ def run(rep, tier, seed):
     all_fails.sort(key=lambda f: (f["signature"], tuple(f["size"]), f["what"]))
     for f in all_fails:
         rep.violation(f["signature"], f["what"], {"module": MODULE, "case": f["case"]})
+    numeric_family(rep, tier)
+
+
+NUMERIC_GRAMMARS = {
+    # fixed-width numerals with an OPTIONAL sign: the plain rendering of a small value ("-5") is not a word, the
+    # zero-padded one ("-005") is, and so is the unsigned one ("005", another number)
+    "padded3-optional-sign": {"<start>": ["<int>"], "<int>": ["<sign><d><d><d>"], "<sign>": ["", "-", "+"],
+                              "<d>": ["0", "1", "5", "9"]},
+    "padded2-mandatory-sign": {"<start>": ["<int>"], "<int>": ["<sign><d><d>"], "<sign>": ["-", "+"],
+                               "<d>": ["0", "1", "5"]},
+}
+
+
+def numeric_family(rep, tier: str) -> None:
+    """(c) numeric requirement: the solver has to build an <int> tree whose decimal value is the number Z3 chose
+    (extract_model_value_int_var: plain rendering, else sign + zero padding + digits).  Contract: every tree
+    returned for `str.to.int(<int>) = V` is a word of the grammar whose value (optional sign, padding, digits) is V."""
+    import random as _random
+    import re as _re
+    from isla.solver import ISLaSolver
+    from bounded.c01_cases import is_watchdog
+    values = (-5, 5, 0, -15, 105, -105, -1) if tier == "quick" else (-5, 5, 0, -15, 105, -105, -1, 9, -9, 50, -50, 999, -999, 11, -110)
+    n = 0
+    for gname, g in NUMERIC_GRAMMARS.items():
+        width = len(g["<int>"][0].replace("<sign>", "").replace("<d>", "d"))
+        digits = "".join(g["<d>"])
+        signs = "|".join(_re.escape(x) for x in g["<sign>"] if x)
+        word = _re.compile(r"^(?:%s)%s[%s]{%d}$" % (signs, "" if "" not in g["<sign>"] else "?", digits, width))
+        for v in values:
+            text = f"str.to.int(<int>) = {v}" if v >= 0 else f"str.to.int(<int>) = (- {abs(v)})"
+            representable = any(word.match(w) for w in (f"{'-' if v < 0 else sg}{abs(v):0{width}d}" for sg in ("", "+")))
+            _random.seed(1)
+            try:
+                solver = ISLaSolver(g, text, enable_optimized_z3_queries=True, timeout_seconds=20)
+            except Exception as exc:  # noqa
+                rep.note_inconclusive(f"numeric family: solver construction failed for {gname} {text}: {exc!r:.80}")
+                continue
+            for call in range(2):
+                n += 1
+                rep.case(key=("numeric", gname, v, call), nontrivial=True,
+                         sample=dict(family="numeric", grammar=gname, constraint=text) if n <= 1 else None)
+                try:
+                    t = solver.solve()
+                except (StopIteration, TimeoutError):
+                    break
+                except Exception as exc:  # noqa
+                    if is_watchdog(exc):
+                        break
+                    rep.note_inconclusive(f"numeric family: {gname} {text}: solve() raised {type(exc).__name__} (exceptions escaping solve() are C02's business)")
+                    break
+                sol = str(t)
+                ok_word = bool(word.match(sol))
+                try:
+                    ok_val = int(sol) == v
+                except ValueError:
+                    ok_val = False
+                if not (ok_word and ok_val):
+                    rep.violation(f"numeric-requirement:{gname}:{'not-a-word' if not ok_word else 'wrong-value'}:{'negative' if v < 0 else 'non-negative'}",
+                                  f"ISLaSolver({gname}, {text!r}).solve() call #{call + 1} returned {sol!r}: "
+                                  f"{'not a word of the grammar' if not ok_word else f'its value is {int(sol)}, requested {v}'}",
+                                  dict(module=MODULE, case=dict(family="numeric", grammar=gname, g=g, constraint=text, value=v,
+                                                                call=call), got=sol))
+    rep.section("numeric", evaluations=n, grammars=len(NUMERIC_GRAMMARS), values=list(values))
+    rep.rule("(c) numeric: fixed-width signed numerals; constraint str.to.int(<int>) = V for small positive / negative / "
+             "zero V; every returned tree is a word whose decimal value is V")
 
 
 def replay(path: str) -> int:
     data = load_replay(path)
     c = data["case"]
+    if c["family"] == "numeric":
+        import random as _random
+        from isla.solver import ISLaSolver
+        _random.seed(1)
+        solver = ISLaSolver(c["g"], c["constraint"], enable_optimized_z3_queries=True, timeout_seconds=20)
+        sols = []
+        for _ in range(c["call"] + 1):
+            try:
+                sols.append(str(solver.solve()))
+            except BaseException as exc:  # noqa
+                sols.append(type(exc).__name__)
+                break
+        print(f"replay C14: ISLaSolver({c['grammar']}, {c['constraint']!r}) -> {sols}; requested value {c['value']}")
+        bad = False
+        try:
+            bad = int(sols[-1]) != c["value"]
+        except ValueError:
+            bad = sols[-1] not in ("StopIteration", "TimeoutError")
+        print("  verdict:", "VIOLATED" if bad else "holds")
+        return 1 if bad else 0
     if c["family"] == "fixed":
         print(f"replay C14: create_fixed_length_tree({c['nt']}, n={c['n']}) seed={c['seed']} "
               f"grammar={c['grammar']!r}")
